@@ -197,37 +197,30 @@ theorem shows_of_showsR (bs : Array Bytes) (m : Nat) (held : Nat → Bool) (c : 
     C02.Shows bs m held c d :=
   ⟨h.length, h.bytes, h.get, h.miss, fun i => by simpa [Core.has] using h.has i, h.contig⟩
 
-/-- **torn page and node writes inside the periodic flush of a replica.**  `c1` is the core right after the act's entry has
-    been logged, `d1` its stores; when the periodic flush is due its journal is the dirty bitfield pages, then the
-    unflushed tree nodes in index order, then the header write and the truncation.  If the `k1`-th page write, or (all
-    pages written) the `k2`-th node write, reaches the store only as a prefix of `t` bytes, `Hypercore::new` succeeds and
-    shows the replica exactly as the completed application leaves it: length, byte length, every held block
-    byte-identical, every other index not held, `has` and the contiguous length exact.  (A half-written page holds, bit
-    by bit, the old or the new value, and the replay of the old header's entries tolerates both; a half-written node is
-    one the replayed entries put back into the unflushed map, which shadows the store.)  The stores are then no longer
-    whole pages / whole slots, so — unlike `replica_torn_commit_point_partial` and `replica_torn_header` — the ghost
-    invariant for *further* crashes is not re-established by this theorem. -/
-theorem replica_torn_flush (C : Crypto) (hC : TreeStore.HashWF C) (hT : TreeStore.TreeWF C) (bs : Array Bytes) (m : Nat) (c : Core) (d : Disk)
-    (held : Nat → Bool) (h : ReplicaReopen.RP C bs m c d held) (hm0 : 0 < m) (a : HashReq.Act)
-    (hok : HashReq.OkActs C bs c.publicKey c.tree.fork m [a]) :
-    ∃ (c1 : Core) (e : Oplog.Entry) (j0 : List SOp),
-      (c.verifyAndApply C d (HashReq.actProof C bs c d a)).journal = (j0 ++ (Oplog.appendEntry c.oplog e).2) ++ c1.maybeFlush.2
-      ∧ ((c1.skipFlush = 0 ∨ c1.oplog.entriesByteLength ≥ Spec.maxEntriesBytes) →
-          c1.maybeFlush.2 = c1.bitfield.flush.2 ++ c1.tree.flush.2 ++ (Oplog.flush c1.oplog c1.header false).2)
-      ∧ (∀ (k1 p t : Nat),
-          let dt := ((d.applyAll (j0 ++ (Oplog.appendEntry c.oplog e).2)).applyAll (c1.bitfield.flush.2.take k1)).apply
-            (.write .bitfield (p * Spec.pageBytes) ((c1.bitfield.pageBytes p).take t))
-          ∃ c' j, Core.openCore C none dt = .ok (c', j)
-            ∧ C02.Shows bs (HashReq.lenAfter m [a]) (fun i => held i || HashReq.fetched [a] i) c' (dt.applyAll j))
-      ∧ (∀ (k2 : Nat) (n : Codec.Node) (t : Nat), (Crash.flushList c1.tree)[k2]? = some n →
-          let dt := (((d.applyAll (j0 ++ (Oplog.appendEntry c.oplog e).2)).applyAll c1.bitfield.flush.2).applyAll (c1.tree.flush.2.take k2)).apply
-            (.write .tree (n.index * Spec.nodeSize) ((HC.nodeBytes n).take t))
-          ∃ c' j, Core.openCore C none dt = .ok (c', j)
-            ∧ C02.Shows bs (HashReq.lenAfter m [a]) (fun i => held i || HashReq.fetched [a] i) c' (dt.applyAll j)) := by
-  obtain ⟨c1, e, j0, hk⟩ := ReplicaCrash.act_ok C hC hT bs m c d held h hm0 a hok
-  have hmid := ReplicaReopen.ok_mid C bs m _ c c1 d held _ _ e j0 h hk
+/-- what `replica_torn_flush*` say about a step `st` of a replica (`c`, `d`) that logs the entry `e` after the data-store
+    operations `j0`, reaches the core `c1` and then runs the periodic flush, when the completed step leaves length `m'` and
+    held set `held'`: the journal's shape, and for the `k1`-th page write / (all pages written) the `k2`-th node write of
+    the flush reaching the store only as a prefix of `t` bytes, `Hypercore::new` succeeds and shows the state after -/
+def TornFlushShows (C : Crypto) (bs : Array Bytes) (m' : Nat) (held' : Nat → Bool) (c c1 : Core) (d : Disk) (st : Step Bool) (e : Oplog.Entry) (j0 : List SOp) : Prop :=
+  st.journal = (j0 ++ (Oplog.appendEntry c.oplog e).2) ++ c1.maybeFlush.2
+    ∧ ((c1.skipFlush = 0 ∨ c1.oplog.entriesByteLength ≥ Spec.maxEntriesBytes) →
+        c1.maybeFlush.2 = c1.bitfield.flush.2 ++ c1.tree.flush.2 ++ (Oplog.flush c1.oplog c1.header false).2)
+    ∧ (∀ (k1 p t : Nat),
+        let dt := ((d.applyAll (j0 ++ (Oplog.appendEntry c.oplog e).2)).applyAll (c1.bitfield.flush.2.take k1)).apply
+          (.write .bitfield (p * Spec.pageBytes) ((c1.bitfield.pageBytes p).take t))
+        ∃ c' j, Core.openCore C none dt = .ok (c', j) ∧ C02.Shows bs m' held' c' (dt.applyAll j))
+    ∧ (∀ (k2 : Nat) (n : Codec.Node) (t : Nat), (Crash.flushList c1.tree)[k2]? = some n →
+        let dt := (((d.applyAll (j0 ++ (Oplog.appendEntry c.oplog e).2)).applyAll c1.bitfield.flush.2).applyAll (c1.tree.flush.2.take k2)).apply
+          (.write .tree (n.index * Spec.nodeSize) ((HC.nodeBytes n).take t))
+        ∃ c' j, Core.openCore C none dt = .ok (c', j) ∧ C02.Shows bs m' held' c' (dt.applyAll j))
+
+/-- every exchange step (`ReplicaReopen.StepOK`) has the property -/
+theorem torn_flush_of_ok (C : Crypto) (bs : Array Bytes) (m m' : Nat) (c c1 : Core) (d : Disk) (held held' : Nat → Bool) (st : Step Bool)
+    (e : Oplog.Entry) (j0 : List SOp) (h : ReplicaReopen.RP C bs m c d held) (hk : ReplicaReopen.StepOK C bs m m' c c1 d held held' st e j0) :
+    TornFlushShows C bs m' held' c c1 d st e j0 := by
+  have hmid := ReplicaReopen.ok_mid C bs m m' c c1 d held held' st e j0 h hk
   obtain ⟨hf1, es1, hp1, hx1⟩ := hmid.per
-  refine ⟨c1, e, j0, hk.shape.2, ?_, ?_, ?_⟩
+  refine ⟨hk.shape.2, ?_, ?_, ?_⟩
   · intro hdue
     rw [LiveRefine.maybeFlush_eq]
     simp only [hdue, ite_true, Core.flushAll]
@@ -237,5 +230,42 @@ theorem replica_torn_flush (C : Crypto) (hC : TreeStore.HashWF C) (hT : TreeStor
   · intro k2 n t hn
     obtain ⟨c', j, r1, r2, _, _⟩ := ReplicaTorn.torn_flush_slotR C bs _ c1 _ _ hf1 es1 hmid.rep hp1 hx1 h.size k2 n t hn
     exact ⟨c', j, r1, shows_of_showsR bs _ _ c' _ r2⟩
+
+/-- **torn page and node writes inside the periodic flush of a replica.**  `c1` is the core right after the act's entry has
+    been logged; when the periodic flush is due its journal is the dirty bitfield pages, then the unflushed tree nodes
+    in index order, then the header write and the truncation.  If the `k1`-th page write, or (all pages written) the
+    `k2`-th node write, reaches the store only as a prefix of `t` bytes, `Hypercore::new` succeeds and shows the
+    replica exactly as the completed application leaves it: length, byte length, every held block byte-identical, every
+    other index not held, `has` and the contiguous length exact (`TornFlushShows`).  (A half-written page holds, bit by
+    bit, the old or the new value, and the replay of the old header's entries tolerates both; a half-written node is
+    one the replayed entries put back into the unflushed map, which shadows the store.)  The stores are then no longer
+    whole pages / whole slots, so — unlike `replica_torn_commit_point_partial` and `replica_torn_header` — the ghost
+    invariant for *further* crashes is not re-established by this theorem. -/
+theorem replica_torn_flush (C : Crypto) (hC : TreeStore.HashWF C) (hT : TreeStore.TreeWF C) (bs : Array Bytes) (m : Nat) (c : Core) (d : Disk)
+    (held : Nat → Bool) (h : ReplicaReopen.RP C bs m c d held) (hm0 : 0 < m) (a : HashReq.Act)
+    (hok : HashReq.OkActs C bs c.publicKey c.tree.fork m [a]) :
+    ∃ (c1 : Core) (e : Oplog.Entry) (j0 : List SOp),
+      TornFlushShows C bs (HashReq.lenAfter m [a]) (fun i => held i || HashReq.fetched [a] i) c c1 d (c.verifyAndApply C d (HashReq.actProof C bs c d a)) e j0 := by
+  obtain ⟨c1, e, j0, hk⟩ := ReplicaCrash.act_ok C hC hT bs m c d held h hm0 a hok
+  exact ⟨c1, e, j0, torn_flush_of_ok C bs m _ c c1 d held _ _ e j0 h hk⟩
+
+/-- the same for first contact -/
+theorem replica_torn_flush_first (C : Crypto) (hC : TreeStore.HashWF C) (hT : TreeStore.TreeWF C) (bs : Array Bytes) (c : Core) (d : Disk)
+    (held : Nat → Bool) (h : ReplicaReopen.RP C bs 0 c d held) (n : Nat) (h0 : 0 < n) (hn : n ≤ bs.size) (sig : Bytes) (hsl : sig.length = 64)
+    (hver : C.verify c.publicKey (Growth.signableAt C bs n c.tree.fork) sig = true) :
+    ∃ (c1 : Core) (e : Oplog.Entry) (j0 : List SOp),
+      TornFlushShows C bs n (fun _ => false) c c1 d (c.verifyAndApply C d (Growth.honestFirst C bs c.tree.fork n sig)) e j0 := by
+  obtain ⟨rfl, c1, e, j0, hk⟩ := ReplicaCrash.first_ok0 C hC hT bs c d held h n h0 hn sig hsl hver
+  exact ⟨c1, e, j0, torn_flush_of_ok C bs 0 n c c1 d _ _ _ e j0 h hk⟩
+
+/-- the same for a block below the replica's length and an upgrade in one proof -/
+theorem replica_torn_flush_blockgrow (C : Crypto) (hC : TreeStore.HashWF C) (hT : TreeStore.TreeWF C) (bs : Array Bytes) (m n : Nat) (c : Core) (d : Disk)
+    (held : Nat → Bool) (h : ReplicaReopen.RP C bs m c d held) (hm0 : 0 < m) (hmn : m < n) (hn : n ≤ bs.size) (us : List (Nat × Nat))
+    (hup : Growth.Up m 0 (RefTree.rootsStack n).reverse us) (sig : Bytes) (hsl : sig.length = 64)
+    (hver : C.verify c.publicKey (Growth.signableAt C bs n c.tree.fork) sig = true) (i : Nat) (hi : i < m) :
+    ∃ (c1 : Core) (e : Oplog.Entry) (j0 : List SOp),
+      TornFlushShows C bs n (fun j => held j || j == i) c c1 d (c.verifyAndApply C d (BlockGrow.honestBlockGrowth C bs c d i m n us sig)) e j0 := by
+  obtain ⟨c1, e, j0, hk⟩ := BlockGrow.blockgrow_ok C hC hT bs m n c d held h hm0 hmn hn us hup sig hsl hver i hi
+  exact ⟨c1, e, j0, torn_flush_of_ok C bs m n c c1 d held _ _ e j0 h hk⟩
 
 end HC.C07
